@@ -25,6 +25,18 @@ pub struct Obj {
     b: Option<String>,
 }
 
+/// an object without fields (marker objects): every member it is sent is undeclared
+#[derive(Serialize, Deserialize, Debug, PartialEq, Clone)]
+pub struct Empty {}
+
+/// an object holding a field-less object below a collection
+#[derive(Serialize, Deserialize, Debug, PartialEq, Clone)]
+pub struct HoldsEmpty {
+    marker: Empty,
+    markers: Vec<Empty>,
+    id: i32,
+}
+
 /// newtype around an optional, standing for an alias of optional<T> (`From<Option<T>>`)
 #[derive(Debug, PartialEq, Clone)]
 pub struct OptAlias(Option<String>);
@@ -122,10 +134,27 @@ fn expect<T: DeserializeOwned>(ct: Ct, s: &Script, limit: usize) -> Expect<T> {
     if script::has_err(s) || c.len() > limit || !one_document(enc, &c) {
         return Expect::Reject;
     }
+    // independent of the reference deserializer: the marker member is declared by no type of
+    // the catalogue, so a document carrying it anywhere is acceptable only for `any`
+    if std::any::type_name::<T>() != std::any::type_name::<Any>() && carries_undeclared_member(enc, &c) {
+        return Expect::Reject;
+    }
     match reference_value::<T>(enc, &c) {
         Some(v) => Expect::Accept(v),
         None => Expect::Reject,
     }
+}
+
+fn carries_undeclared_member(enc: &str, c: &[u8]) -> bool {
+    fn walk(v: &serde_json::Value) -> bool {
+        match v {
+            serde_json::Value::Object(m) => m.contains_key("zzUndeclared") || m.values().any(walk),
+            serde_json::Value::Array(a) => a.iter().any(walk),
+            _ => false,
+        }
+    }
+    let tree: Option<serde_json::Value> = if enc == "json" { serde_json::from_slice(c).ok() } else { serde_smile::from_slice(c).ok() };
+    tree.map(|t| walk(&t)).unwrap_or(false)
 }
 
 fn error_ok(e: &Error, s: &Script) -> Result<(), String> {
@@ -316,7 +345,21 @@ pub fn catalogue(valid: &[&str]) -> Vec<Vec<u8>> {
 fn with_extra_member(v: &str) -> Option<serde_json::Value> {
     match serde_json::from_str::<serde_json::Value>(v) {
         Ok(serde_json::Value::Object(mut m)) => {
-            m.insert("zzUndeclared".into(), serde_json::Value::Bool(true));
+            // into the first nested object if there is one (an undeclared member at depth 1),
+            // else into the root
+            let nested = m.values_mut().find_map(|x| match x {
+                serde_json::Value::Object(o) => Some(o),
+                serde_json::Value::Array(a) => a.iter_mut().find_map(|y| y.as_object_mut()),
+                _ => None,
+            });
+            match nested {
+                Some(o) => {
+                    o.insert("zzUndeclared".into(), serde_json::Value::Bool(true));
+                }
+                None => {
+                    m.insert("zzUndeclared".into(), serde_json::Value::Bool(true));
+                }
+            }
             Some(serde_json::Value::Object(m))
         }
         _ => None,
@@ -334,6 +377,8 @@ macro_rules! for_types {
         $f::<Vec<i32>>("list<integer>", &["[]", "[1,2]", "[ 1 ]"], $($args),*);
         $f::<BTreeMap<String, i32>>("map<string,integer>", &["{}", "{\"a\":1}", "{\"a\":1,\"b\":2}"], $($args),*);
         $f::<Obj>("object", &["{\"a\":1}", "{\"a\":1,\"b\":\"x\"}", "{\"b\":null,\"a\":-5}"], $($args),*);
+        $f::<Empty>("empty-object", &["{}", "{ }"], $($args),*);
+        $f::<HoldsEmpty>("object-holding-empty-objects", &["{\"marker\":{},\"markers\":[{},{}],\"id\":1}"], $($args),*);
         $f::<Any>("any", &["null", "[1,{\"a\":\"b\"}]", "\"s\"", "1"], $($args),*);
         $f::<Option<i32>>("optional<integer>", &["null", "7"], $($args),*);
         $f::<conjure_object::Uuid>("uuid", &["\"01234567-89ab-cdef-fedc-ba9876543210\""], $($args),*);
